@@ -451,6 +451,8 @@ class Profile:
     unkillable = False
     default_behaviours = ('run',)
     behaviours_max = 3
+    behaviour_kinds = None         # None = all kinds with the same weight
+    behaviour_everywhere = 0.0     # probability that a behaviour script applies to the program on every instance
     sequences = (0, 1, 2)
     running_failure = ('CONTINUE', 'RESTART_PROCESS', 'STOP_APPLICATION', 'RESTART_APPLICATION')
     starting_failure = tuple(STARTING_FAILURE)
@@ -553,8 +555,12 @@ def config_st(draw, profile=Profile):
             i = draw(st.integers(0, n - 1))
             app = draw(st.sampled_from(apps))
             prog = draw(st.sampled_from(app['programs']))
-            script = draw(st.lists(behaviour_st(profile.unkillable), min_size=1, max_size=3))
+            script = draw(st.lists(behaviour_st(profile.unkillable, profile.behaviour_kinds), min_size=1, max_size=3))
             behaviours[f'{i}|{app["name"]}:{prog["name"]}'] = script
+            if profile.behaviour_everywhere and draw(_bern(profile.behaviour_everywhere)):
+                # the program misbehaves wherever it is started
+                for j in range(n):
+                    behaviours[f'{j}|{app["name"]}:{prog["name"]}'] = script
     late = {}
     for i in range(n):
         if draw(_bern(profile.late_boot)):
@@ -568,8 +574,8 @@ def config_st(draw, profile=Profile):
 
 
 @st.composite
-def behaviour_st(draw, unkillable=False):
-    kinds = ['run', 'early_exit', 'exit_ok', 'exit_bad', 'spawn_error', 'slow_stop', 'ignore_term']
+def behaviour_st(draw, unkillable=False, kinds=None):
+    kinds = list(kinds) if kinds else ['run', 'early_exit', 'exit_ok', 'exit_bad', 'spawn_error', 'slow_stop', 'ignore_term']
     if unkillable:
         kinds += ['unkillable', 'unkillable', 'very_slow_stop']
     kind = draw(st.sampled_from(kinds))
@@ -664,6 +670,27 @@ def op_st(draw, config, kinds, specs):
         if method == 'restart_sequence':
             return ['rpc', i, method, [False]]
         return ['rpc', i, method, [strategy, draw(st.sampled_from(specs or ['x:y'])), '', False]]
+    if kind == 'rpc_stop':
+        apps = [a['name'] for a in config.get('apps', [])] or ['nothing']
+        method = draw(st.sampled_from(['stop_application', 'stop_application', 'restart_application', 'start_application']))
+        if method == 'stop_application':
+            return ['rpc', i, method, [draw(st.sampled_from(apps)), False]]
+        return ['rpc', i, method, [draw(st.sampled_from(STARTING)), draw(st.sampled_from(apps)), False]]
+    if kind == 'rpc_app':
+        apps = [a['name'] for a in config.get('apps', [])] or ['nothing']
+        method = draw(st.sampled_from(['start_application', 'start_application', 'restart_application', 'restart_sequence',
+                                       'stop_application']))
+        if method == 'stop_application':
+            return ['rpc', i, method, [draw(st.sampled_from(apps)), False]]
+        if method == 'restart_sequence':
+            return ['rpc', i, method, [False]]
+        return ['rpc', i, method, [draw(st.sampled_from(STARTING)), draw(st.sampled_from(apps)), False]]
+    if kind == 'rpc_stop_proc':
+        apps = [a['name'] for a in config.get('apps', [])] or ['nothing']
+        spec = draw(st.sampled_from((specs or ['x:y']) * 3 + [a + ':*' for a in apps]))
+        if draw(st.booleans()):
+            return ['rpc', i, 'stop_process', [spec, False]]
+        return ['rpc', i, 'restart_process', [draw(st.sampled_from(STARTING)), spec, '', False]]
     if kind == 'rpc_disable':
         programs = [p['name'] for a in config.get('apps', []) for p in a['programs']] or ['nothing']
         return ['rpc', i, draw(st.sampled_from(['disable', 'disable', 'enable'])), [draw(st.sampled_from(programs)), False]]
